@@ -1,7 +1,8 @@
 /-
 C15 — symmetrisation averages over mode permutations and the symmetry test is exact.
 Only property theorems and non-vacuity examples live here; proofs are in
-Lemmas/Sym{Perms,Spec,Dense,Old,New,Kruskal}.lean.  Model: Ops/Symmetrize.lean (tensor.py /
+Lemmas/Sym{Perms,Spec,Dense,Old,New,Kruskal,KruskalValue,KruskalNormal}.lean.  Model: Ops/Symmetrize.lean,
+Ops/SymmetrizeKruskal.lean (tensor.py /
 ktensor.py after the fixes dce0022, ea31d59, adf6713); specification: Spec/Symmetric.lean.
 
 Throughout: `T.WF` (as many values as cells), `ValidGroups n grps` (every group a duplicate-free
@@ -15,6 +16,8 @@ empty group, so its theorems ask for non-empty groups.  Scalars: any linearly or
 import PyttbModel.Lemmas.SymOld
 import PyttbModel.Lemmas.SymNew
 import PyttbModel.Lemmas.SymKruskal
+import PyttbModel.Lemmas.SymKruskalValue
+import PyttbModel.Lemmas.SymKruskalNormal
 namespace Pyttb
 open Sym
 
@@ -274,6 +277,143 @@ theorem C15_kruskal_rejects [Field α] [LinearOrder α] (norm : Ktensor α → K
     (∃ R, ksymmetrize norm K = .ok R) ↔ (K.shape ≠ [] ∧ ∀ e ∈ K.shape, e = K.shape.headD 0) :=
   ksymmetrize_ok_iff norm K
 
+/-! ### Kruskal tensors: an already symmetric tensor keeps its value, symmetrising again changes nothing
+
+`ktensor.symmetrize` first normalises a copy (`normalize("all")`: unit columns, the N-th root of the weight
+absorbed into every factor, weights 1) and then works on that copy `Kn = norm K`.  `kaligned Kn` (decidable,
+Ops/SymmetrizeKruskal.lean) says: order >= 1, all factors have the same number of rows and one entry per
+component in every row, and column `j` of every factor is column `j` of the first factor or its negation —
+the copy is symmetric component by component.  The array of a Kruskal tensor is `K.get i = Σ_r λ_r ∏ₙ Aₙ[iₙ,r]`. -/
+
+/-- **An already symmetric Kruskal tensor keeps its value.**  If the normalised copy passes `kaligned`, the
+tensor returned by `ktensor.symmetrize` denotes the array the copy denotes — for every order N >= 1 of either
+parity (the odd-order repair of negative weights included), every rank, weights of either sign or zero, zero
+columns, factors without rows; `norm` is any behaviour of the normalisation service. -/
+theorem C15_kruskal_keeps_value [Field α] [LinearOrder α] [IsStrictOrderedRing α]
+    (norm : Ktensor α → Ktensor α) (K R : Ktensor α) (h : ksymmetrize norm K = .ok R)
+    (ha : kaligned (norm K) = true) (i : List Nat) (hi : i.length = (norm K).factors.length) :
+    R.get i = (norm K).get i := by
+  rw [ksymmetrize_eq norm K R h]
+  exact ksymmetrizeCore_get_of_aligned (norm K) ha i hi
+
+/-- … hence the array of the input itself, as soon as the normalisation keeps order and array (what
+`normalize` promises, `C08_normalize_denote`). -/
+theorem C15_kruskal_keeps_value_input [Field α] [LinearOrder α] [IsStrictOrderedRing α]
+    (norm : Ktensor α → Ktensor α) (K R : Ktensor α) (h : ksymmetrize norm K = .ok R)
+    (ha : kaligned (norm K) = true) (hl : (norm K).factors.length = K.factors.length)
+    (hn : ∀ i : List Nat, i.length = K.factors.length → (norm K).get i = K.get i)
+    (i : List Nat) (hi : i.length = K.factors.length) : R.get i = K.get i := by
+  rw [C15_kruskal_keeps_value norm K R h ha i (by rw [hl]; exact hi)]
+  exact hn i hi
+
+/-- … and what is stored: when the copy is `⟨w, A0 :: rest⟩` with at least one row per factor, every
+factor of the result is `A0` — with the columns of the components whose weight came out negative negated
+when the order is odd — and weight `j` is `w j` times the signs `ksgn A0 A j` (`-1` when column `j` of `A`
+points against column `j` of `A0`, else `1`) of the other factors, negated again by the odd-order repair. -/
+theorem C15_kruskal_keeps_value_stored [Field α] [LinearOrder α] [IsStrictOrderedRing α]
+    (norm : Ktensor α → Ktensor α) (K R : Ktensor α) (h : ksymmetrize norm K = .ok R)
+    (ha : kaligned (norm K) = true) (A0 : Mat α) (rest : List (Mat α))
+    (hf : (norm K).factors = A0 :: rest) (hne : A0 ≠ []) :
+    R = ⟨flipVec (oddNeg (rest.length + 1) (loopWeights A0 rest (norm K).weights))
+            (loopWeights A0 rest (norm K).weights),
+         List.replicate (rest.length + 1)
+           (flipCols (oddNeg (rest.length + 1) (loopWeights A0 rest (norm K).weights)) A0)⟩ ∧
+    (loopWeights A0 rest (norm K).weights).length = (norm K).weights.length ∧
+    ∀ j, j < (norm K).weights.length → (loopWeights A0 rest (norm K).weights).getD j 0
+      = (rest.map fun A => ksgn A0 A j).prod * (norm K).weights.getD j 0 := by
+  obtain ⟨A0', rest', hf', hal⟩ := kaligned_spec (norm K) ha
+  rw [hf] at hf'
+  injection hf' with e1 e2
+  subst e1 e2
+  have hK : norm K = ⟨(norm K).weights, A0 :: rest⟩ := by
+    cases hn : norm K with
+    | mk w fs => rw [hn] at hf; simp only at hf; rw [hf]
+  refine ⟨?_, ?_⟩
+  · rw [ksymmetrize_eq norm K R h]
+    conv_lhs => rw [hK]
+    exact ksymmetrizeCore_aligned _ A0 rest hal hne
+  · have := foldl_flipVec A0 (norm K).weights.length rest (norm K).weights rfl
+    rw [← foldl_flipVec_congr A0 _ rest _ rfl, ← loopWeights_eq] at this
+    exact this
+
+/-- **From the un-normalised input.**  With the `normalize("all")` model of Ops/KruskalReparam.lean
+(`normAllOf S`; `S.Lawful`: the column norm is a norm, `root N` is the N-th root on non-negative numbers):
+if `K` is well-formed and column `j` of every factor is a non-zero multiple of one vector, for every
+component `j` (`Parallel K`; the vector may be zero, the multiples have any signs), then the normalised copy
+passes `kaligned` and `ktensor.symmetrize` returns a Kruskal tensor denoting the array of `K`. -/
+theorem C15_kruskal_keeps_value_of_parallel [Field α] [LinearOrder α] [IsStrictOrderedRing α]
+    {S : Services α} (hS : S.Lawful) (K R : Ktensor α) (hwf : K.WF) (hp : Parallel K)
+    (h : ksymmetrize (normAllOf S) K = .ok R) :
+    kaligned (normAllOf S K) = true ∧ ∀ i : List Nat, i.length = K.factors.length → R.get i = K.get i := by
+  obtain ⟨hN, hc⟩ := kcubicWF_of_accepted K hwf ((ksymmetrize_ok_iff (normAllOf S) K).1 ⟨R, h⟩)
+  have ha := kaligned_normAllOf hS K hN hc hp
+  have hrep := normAllOf_reparam hS K hN
+  refine ⟨ha, ?_⟩
+  intro i hi
+  rw [C15_kruskal_keeps_value (normAllOf S) K R h ha i (by rw [hrep.ndims]; exact hi)]
+  exact hrep.get i hi
+
+/-- **A Kruskal tensor that passes the symmetry test keeps its value**: if `ktensor.issymmetric` answers true
+for a well-formed `K` (all factor matrices equal; weights of either sign or zero), `ktensor.symmetrize` returns
+a Kruskal tensor denoting the array of `K`. -/
+theorem C15_kruskal_fixes_sym [Field α] [LinearOrder α] [IsStrictOrderedRing α]
+    {S : Services α} (hS : S.Lawful) (K R : Ktensor α) (hwf : K.WF) (hs : (kissymmetric K).1 = true)
+    (h : ksymmetrize (normAllOf S) K = .ok R) (i : List Nat) (hi : i.length = K.factors.length) :
+    R.get i = K.get i := by
+  have heq := (kissymmetric_iff K hwf).1 hs
+  have hrep : K.factors = List.replicate K.factors.length (K.factors.getD 0 []) := by
+    apply List.ext_getElem (by simp)
+    intro k h1 h2
+    have := heq k h1 0 (by omega)
+    simp only [List.getElem_replicate]
+    rw [← this, List.getD_eq_getElem?_getD, List.getElem?_eq_getElem h1]
+    rfl
+  exact (C15_kruskal_keeps_value_of_parallel hS K R hwf (parallel_of_replicate K _ _ hrep) h).2 i hi
+
+/-- **Symmetrising again changes nothing.**  For a well-formed `K` that `ktensor.symmetrize` accepts with
+result `R`: `R` is accepted again, its normalised copy passes `kaligned` (all factors of `R` are one matrix),
+and the second result `R2` denotes the same array as `R`.  (The stored factors of `R2` are those of the
+normalised copy of `R`, see `C15_kruskal_keeps_value_stored`; they are the factors of `R` up to what
+`normalize("all")` does to `R`.) -/
+theorem C15_kruskal_idem [Field α] [LinearOrder α] [IsStrictOrderedRing α]
+    {S : Services α} (hS : S.Lawful) (K R : Ktensor α) (hwf : K.WF)
+    (h : ksymmetrize (normAllOf S) K = .ok R) :
+    ∃ R2, ksymmetrize (normAllOf S) R = .ok R2 ∧ kaligned (normAllOf S R) = true ∧
+      ∀ i : List Nat, i.length = K.factors.length → R2.get i = R.get i := by
+  obtain ⟨hN, hc⟩ := kcubicWF_of_accepted K hwf ((ksymmetrize_ok_iff (normAllOf S) K).1 ⟨R, h⟩)
+  have hrep := normAllOf_reparam hS K hN
+  have hcn := kcubicWF_normAllOf hS K hN hc
+  have hR := ksymmetrize_eq (normAllOf S) K R h
+  obtain ⟨V, hV⟩ := ksymmetrizeCore_factors (normAllOf S K)
+  rw [← hR, hrep.ndims] at hV
+  have hcR : kcubicWF R = true := by rw [hR]; exact kcubicWF_ksymmetrizeCore _ hcn
+  have hRwf := ((kcubicWF_iff R).1 hcR).2
+  have hNR : R.factors.length = K.factors.length := by rw [hV]; simp
+  have hacc : ∃ R2, ksymmetrize (normAllOf S) R = .ok R2 := by
+    rw [ksymmetrize_ok_iff]
+    obtain ⟨n, hn⟩ := Nat.exists_eq_succ_of_ne_zero (Nat.pos_iff_ne_zero.1 hN)
+    simp only [Ktensor.shape, hV, hn, List.replicate_succ, List.map_cons, List.map_replicate]
+    refine ⟨by simp, ?_⟩
+    intro e he
+    simp only [List.headD_cons]
+    rcases List.mem_cons.1 he with rfl | he
+    · rfl
+    · exact (List.mem_replicate.1 he).2
+  obtain ⟨R2, h2⟩ := hacc
+  obtain ⟨ha, hval⟩ := C15_kruskal_keeps_value_of_parallel hS R R2 hRwf
+    (parallel_of_replicate R _ V hV) h2
+  exact ⟨R2, h2, ha, fun i hi => hval i (by rw [hNR]; exact hi)⟩
+
+/-- **The array of the result is invariant under every permutation of the modes** (all factors are one
+matrix): `R.get (i ∘ p) = R.get i` for every permutation `p` of the modes and every subscript `i`. -/
+theorem C15_kruskal_sym_array [Field α] [LinearOrder α] (norm : Ktensor α → Ktensor α) (K R : Ktensor α)
+    (h : ksymmetrize norm K = .ok R) (p : List Nat) (hp : isPermOf p R.factors.length = true)
+    (i : List Nat) (hi : i.length = R.factors.length) : R.get (gather i p) = R.get i := by
+  obtain ⟨V, hV, hsym⟩ := C15_kruskal_sym norm K R h
+  have hl : R.factors.length = (norm K).factors.length := by rw [hV]; simp
+  rw [hl] at hp hi
+  exact hsym p hp i hi
+
 /-! ### the hypotheses are satisfiable, the statements are not vacuous -/
 
 example : ValidGroups 4 [[0, 1], [2, 3]] ∧ SizesOK [2, 2, 3, 3] [[0, 1], [2, 3]] ∧
@@ -284,5 +424,61 @@ example : groupPerms 4 [[0, 1], [2, 3]] = [[0, 1, 2, 3], [0, 1, 3, 2], [1, 0, 2,
 
 example : Sym.issymmetric (⟨[2, 2, 2], [0, 3, 3, 6, 8, 11, 11, 14]⟩ : Dense Int) (some [[0, 1]]) false false
     = .ok (.plain true) := by decide
+
+/-! Kruskal: `kaligned` is satisfiable by non-trivial copies, and the routine really changes what is stored. -/
+
+/-- order 3 (odd), a negative weight, the second factor points against the first in component 0: the loop
+turns the weights into `[-2, -3]`, the odd-order repair negates both weights and all columns. -/
+example : kaligned (⟨[2, -3], [[[1, 2], [-2, 1]], [[-1, 2], [2, 1]], [[1, 2], [-2, 1]]]⟩ : Ktensor ℚ) = true ∧
+    ksymmetrizeCore (⟨[2, -3], [[[1, 2], [-2, 1]], [[-1, 2], [2, 1]], [[1, 2], [-2, 1]]]⟩ : Ktensor ℚ)
+      = ⟨[2, 3], List.replicate 3 [[-1, -2], [2, -1]]⟩ := by decide +kernel
+
+/-- order 4 (even), in component 0 two factors (modes 1, 2) and in component 1 two factors (modes 2, 3) point
+against the first, component 2 has weight zero and zero columns: weights stay, all factors become the first. -/
+example : kaligned (⟨[2, -3, 0], [[[1, 2, 0], [-2, 1, 0]], [[-1, 2, 0], [2, 1, 0]], [[-1, -2, 0], [2, -1, 0]],
+      [[1, -2, 0], [-2, -1, 0]]]⟩ : Ktensor ℚ) = true ∧
+    ksymmetrizeCore (⟨[2, -3, 0], [[[1, 2, 0], [-2, 1, 0]], [[-1, 2, 0], [2, 1, 0]], [[-1, -2, 0], [2, -1, 0]],
+      [[1, -2, 0], [-2, -1, 0]]]⟩ : Ktensor ℚ) = ⟨[2, -3, 0], List.replicate 4 [[1, 2, 0], [-2, 1, 0]]⟩ := by
+  decide +kernel
+
+/-- order 4, one factor (an odd number) against the first in component 0: the weight changes sign. -/
+example : kaligned (⟨[2, 5], [[[1, 2], [-2, 1]], [[-1, 2], [2, 1]], [[1, 2], [-2, 1]], [[1, -2], [-2, -1]]]⟩ : Ktensor ℚ)
+      = true ∧
+    ksymmetrizeCore (⟨[2, 5], [[[1, 2], [-2, 1]], [[-1, 2], [2, 1]], [[1, 2], [-2, 1]], [[1, -2], [-2, -1]]]⟩ : Ktensor ℚ)
+      = ⟨[-2, -5], List.replicate 4 [[1, 2], [-2, 1]]⟩ := by decide +kernel
+
+/-- The hypothesis is about the components, not only about the array: `e₁⊗e₂ + e₂⊗e₁` (unit columns, weights 1,
+so it is its own normalised copy) denotes a symmetric matrix, is not `kaligned`, and `ktensor.symmetrize` turns it
+into the constant matrix 1/2 — by design the routine averages the factor matrices, not the array. -/
+example :
+    kaligned (⟨[1, 1], [[[1, 0], [0, 1]], [[0, 1], [1, 0]]]⟩ : Ktensor ℚ) = false ∧
+    (∀ i ∈ allSubs [2, 2], (⟨[1, 1], [[[1, 0], [0, 1]], [[0, 1], [1, 0]]]⟩ : Ktensor ℚ).get (gather i [1, 0])
+      = (⟨[1, 1], [[[1, 0], [0, 1]], [[0, 1], [1, 0]]]⟩ : Ktensor ℚ).get i) ∧
+    (⟨[1, 1], [[[1, 0], [0, 1]], [[0, 1], [1, 0]]]⟩ : Ktensor ℚ).get [0, 0] = 0 ∧
+    (ksymmetrizeCore (⟨[1, 1], [[[1, 0], [0, 1]], [[0, 1], [1, 0]]]⟩ : Ktensor ℚ)).get [0, 0] = 1 / 2 := by
+  decide +kernel
+
+/-- not aligned: the second factor's column 1 is not ± the first factor's column 1. -/
+example : kaligned (⟨[1, 1], [[[1, 2], [-2, 1]], [[1, 2], [-2, 3]]]⟩ : Ktensor ℚ) = false := by decide +kernel
+
+/-- `Parallel`: column 0 of the three factors is `1, -3, 2` times `(1, -2)`, column 1 is `1, 2, -1` times `(2, 1)`. -/
+example : Parallel (⟨[2, -3], [[[1, 2], [-2, 1]], [[-3, 4], [6, 2]], [[2, -2], [-4, -1]]]⟩ : Ktensor ℚ) := by
+  intro j hj
+  have : j = 0 ∨ j = 1 := by simp at hj; omega
+  rcases this with rfl | rfl
+  · refine ⟨[1, -2], ?_⟩
+    intro A hA
+    simp only [List.mem_cons, List.not_mem_nil, or_false] at hA
+    rcases hA with rfl | rfl | rfl
+    · exact ⟨1, by norm_num, by decide +kernel⟩
+    · exact ⟨-3, by norm_num, by decide +kernel⟩
+    · exact ⟨2, by norm_num, by decide +kernel⟩
+  · refine ⟨[2, 1], ?_⟩
+    intro A hA
+    simp only [List.mem_cons, List.not_mem_nil, or_false] at hA
+    rcases hA with rfl | rfl | rfl
+    · exact ⟨1, by norm_num, by decide +kernel⟩
+    · exact ⟨2, by norm_num, by decide +kernel⟩
+    · exact ⟨-1, by norm_num, by decide +kernel⟩
 
 end Pyttb
